@@ -11,8 +11,10 @@
 (*      reports whether the input is in the dialect and whether the grammar's   *)
 (*      blocks equal the scanner's (C02 on this input);                         *)
 (*   4. on request (c.lib) folds Library!AddLoop over the blocks (BibLibrary)   *)
-(*      and prints what sits at every position of the parsed library (C09).     *)
-EXTENDS BibLibrary, Json, IOUtils
+(*      and prints what sits at every position of the parsed library (C09), and *)
+(*      what default parsing (resolve references, strip one enclosing layer)    *)
+(*      leaves in every live entry and string (Interpolate!Parsed; C11, C05).   *)
+EXTENDS Interpolate, Json, IOUtils
 Trace == JsonDeserialize(IOEnv.TRACE_FILE)
 VARIABLES tid
 N == Len(Trace)
@@ -29,7 +31,8 @@ Next ==
               out == Run(toks, FeMap(c))
           IN PrintT(ToJson([id |-> c.id, out |-> out,
                             lib |-> IF c.lib THEN LibDesc(toks, out) ELSE <<>>,
-                            libok |-> IF c.lib THEN DupOK(toks, out) ELSE TRUE,
+                            libok |-> IF c.lib THEN DupOK(toks, out) /\ ResolvedExactly(toks, out) ELSE TRUE,
+                            parsed |-> IF c.lib THEN Parsed(toks, out) ELSE <<>>,
                             rec |-> IF c.g THEN LET r == Recognise(toks) IN [ok |-> r.ok, same |-> r.blocks = out]
                                     ELSE [ok |-> FALSE, same |-> FALSE],
                             obs |-> IF c.judge THEN ObsOK(toks, c.obs) ELSE "",
